@@ -627,9 +627,34 @@ func (a *Analysis) CheckC20(rep *Report, tier string) {
 	rep.Counts["reachable_module_functions"] = nreach
 	rep.Floor("reachable_module_functions", nreach, 400)
 	rep.Notes = append(rep.Notes, "call graph: "+cgKind)
+	// shared singletons: registered checksum services must not be written by Calc (any goroutine may be inside it)
+	for _, svc := range a.U.Services {
+		paths, err := a.engineFor(svc.Calc).AnalyzeRoot(svc.Calc, nil)
+		name := svc.Type.Obj().Name()
+		if !rep.Ob("V5-service-analysable", name, err == nil, a.P.Pos(svc.Calc.Pos()), fmt.Sprint(err)) {
+			continue
+		}
+		clean := true
+		for _, p := range paths {
+			walkEvents(p.Events, func(e *Event, _ int) {
+				if e.Kind == EvStore {
+					if r := addrRoot(e.Dst); r != nil && r.Op == "param" && r.ID == 0 {
+						clean = false
+						rep.Ob("V5-shared-service-immutable", name, false, a.P.Pos(e.Pos), "Calc writes into the registered service object, which all goroutines share: "+e.Dst.Pretty())
+					}
+				}
+			})
+		}
+		if clean {
+			rep.Ob("V5-shared-service-immutable", name, true, "", "")
+		}
+	}
 	// V3
 	for _, t := range a.U.Tables {
 		for _, r := range t.Regs {
+			if r.Closure != nil {
+				rep.Ob("V3-factory-captures-nothing", t.Name+"["+r.Key+"]", len(r.Closure.FreeVars) == 0, a.P.Pos(r.Call.Pos()), "registered factory closes over variables of its environment (state shared between calls)")
+			}
 			rep.Ob("V3-factory-fresh", t.Name+"["+r.Key+"]", r.Fresh, a.P.Pos(r.Call.Pos()), "factory returns a shared (or nil) object instead of a fresh allocation")
 		}
 	}
